@@ -121,3 +121,27 @@ Print Assumptions C11_dict_equal_entry_verbatim.
 Print Assumptions C11_call_equal_kw_verbatim.
 Print Assumptions C11_call_noflags_identity.
 Print Assumptions C11_positional_argument_rewritten_refuted.
+
+(* values in which lists / tuples, dict displays and constructor calls are nested in each other at ANY depth (Model/Nest.v): a hand-written
+   expression whose value is == the observed one keeps its source text verbatim at every depth (hand-written leaves like `0+1` included) - dict
+   entries are matched by key whatever the order of the observed dict, keyword arguments by name, also when a keyword spells out the default of its
+   field - whatever is approved except update.  Premises: calls are written with keyword arguments only (positional ones: finding F-41), name
+   only fields of their class, give every field without a default and repeat no keyword; the observed value is well-formed. *)
+From V Require Model.Nest Proofs.NestProofs Proofs.NestValue Proofs.NestFix Proofs.NestEqual.
+Theorem C11_nest_equal_keeps_text :
+  forall (ct : Nest.ctab) (F : flags) (o : Nest.ntree) (n : Nest.nval),
+  NestFix.ct_ok ct -> NestEqual.okc ct o = true -> NestFix.okv ct n = true -> f_update F = false ->
+  Nest.val_eqb (Nest.eval ct o) n = true -> NestProofs.verbatim (Nest.assign_nest ct F o n) = Some o.
+Proof. exact NestEqual.nest_equal_keeps_text_top. Qed.
+(* nothing approved: the text stays as it is, whatever is observed *)
+Theorem C11_nest_noflags_identity :
+  forall (ct : Nest.ctab) (f : nat) (F : flags) (o : Nest.ntree) (n : Nest.nval),
+  f_fix F = false -> f_update F = false -> NestProofs.verbatim (Nest.assign ct f F o n) = Some o.
+Proof. exact NestProofs.nest_noflags_identity. Qed.
+Theorem C11_nest_equal_premises_hold :
+  NestEqual.okc NestEqual.ex_ct NestEqual.ex_old = true /\ NestFix.okt NestEqual.ex_old = true /\
+  NestFix.okv NestEqual.ex_ct NestEqual.ex_new = true /\ Nest.val_eqb (Nest.eval NestEqual.ex_ct NestEqual.ex_old) NestEqual.ex_new = true.
+Proof. exact NestEqual.nest_equal_premises_hold. Qed.
+Print Assumptions C11_nest_equal_keeps_text.
+Print Assumptions C11_nest_noflags_identity.
+Print Assumptions C11_nest_equal_premises_hold.
